@@ -284,18 +284,12 @@ def _parse_arg(k, i):
 
 
 def judge(base, wclauses, query, bref=None, route=True):
-    """-> dict(sym, detail, expected, observed, out, ref, info).  route=False (used while shrinking) also runs
-    deterministic findall-only programs, so that a violation which does not need any probabilistic choice can be
-    recognised as C13's."""
+    """-> dict(sym, detail, expected, observed, out, ref, info).  (``route`` is kept for callers; deterministic
+    programs are judged like any other, attribution of deterministic *order* violations to C13 happens in report())"""
     bref = bref or BaseRef(base)
     src = G.program_text(base + wclauses, query)
     ref = distribution(bref, wclauses, query, all_dedup=True)
     res = dict(sym=None, detail="", src=src, ref=ref, expected=None, observed=None, outclass=None, steps=ref.get("steps", 0))
-    if route and owned_by_c13(bref, wclauses):
-        # deterministic program, findall/3 only: owned by C13 (DESIGN 2.8); all/3 is named by C19 only
-        res["detail"] = "unjudged:routed-to-C13-deterministic-findall"
-        res["outclass"] = "not-run"
-        return res
     if ref["kind"] == "dist" and bref.nchoices and ref["maxlen"] > MAX_LIST:
         # findall/3 enumerates 2^n candidate lists for n uncertain elements (documented combinatorial explosion)
         res["detail"] = "unjudged:not-run-list-longer-than-%d" % MAX_LIST
@@ -350,6 +344,15 @@ def judge(base, wclauses, query, bref=None, route=True):
     k = bad[0]
     res["detail"] = "%s: reference %.10g, reported %s" % (k, float(ref["dist"].get(k, 0)),
                                                          ("%.10g" % obs[k]) if k in obs else "not reported")
+    if res["sym"] == "wrong-probability":
+        # a wrapper that looks at the list ([H|_], q([a|_]), ...) sees a wrong *order* as a wrong probability: if the
+        # plain wrapper q(L) :- findall(T,G,L) of one of its collectors shows an order violation, that is the symptom
+        for plain in _plain_wrapper(wclauses, query):
+            r2 = judge(base, plain, ["q", "L"], bref, route=False)
+            if r2["sym"] == "order":
+                res["sym"] = "order"
+                res["detail"] += "  (the collected list is in the wrong order: %s)" % r2["detail"]
+                break
     return res
 
 
@@ -375,6 +378,23 @@ def _rename_functor(t, old, new, arity):
     return t
 
 
+def _swap_functors(t, a, b, arity):
+    if S.is_compound(t):
+        f = t[0]
+        if len(t) - 1 == arity and f in (a, b):
+            f = b if f == a else a
+        return [f] + [_swap_functors(x, a, b, arity) for x in t[1:]]
+    return t
+
+
+def _project(t, newp, pos):
+    if S.is_compound(t):
+        if t[0] == "r" and len(t) == 3:
+            return [newp, t[pos]]
+        return [t[0]] + [_project(x, newp, pos) for x in t[1:]]
+    return t
+
+
 def _rename_const(t, m):
     if S.is_compound(t):
         return [t[0]] + [_rename_const(a, m) for a in t[1:]]
@@ -395,6 +415,10 @@ def _collector_variants(t):
         if t[0] in ("findall", "all") and len(t) == 4 and S.is_compound(t[1]):
             for a in t[1][1:]:
                 yield [t[0], a, t[2], t[3]]
+        if t[0] in ("findall", "all") and len(t) == 4 and not S.is_compound(t[1]) and not S.is_var(t[1]):
+            gv = G.goal_vars(t[2])
+            if gv:
+                yield [t[0], gv[0], t[2], t[3]]
         for i in range(1, len(t)):
             for v in _collector_variants(t[i]):
                 yield list(t[:i]) + [v] + list(t[i + 1:])
@@ -403,17 +427,25 @@ def _collector_variants(t):
 def _unfoldings(t, base):
     """replace a call h(Args) by the body of a base rule whose head is literally h(Args)"""
     if S.is_compound(t):
-        for cl in base:
-            if cl["body"] is not None and len(cl["heads"]) == 1 and cl["heads"][0][0] is None \
-                    and S.freeze(cl["heads"][0][1]) == S.freeze(t):
-                yield cl["body"]
+        bodies = [cl["body"] for cl in base
+                  if cl["body"] is not None and len(cl["heads"]) == 1 and S.freeze(cl["heads"][0][1]) == S.freeze(t)]
+        nclauses = sum(1 for cl in base if G.head_preds([cl]) == {(t[0], len(t) - 1)})
+        if bodies and len(bodies) == nclauses and all(cl["heads"][0][0] is None for cl in base
+                                                      if G.head_preds([cl]) == {(t[0], len(t) - 1)}):
+            d = bodies[-1]
+            for b in reversed(bodies[:-1]):
+                d = [";", b, d]
+            yield d
         for i in range(1, len(t)):
             for v in _unfoldings(t[i], base):
                 yield list(t[:i]) + [v] + list(t[i + 1:])
 
 
-def candidates(case):
+def _raw_candidates(case):
     base, wcl, q = case["base"], case["wrapper"], case["query"]
+    # the plain list-returning wrapper of one of the collectors
+    for c in _plain_wrapper(wcl, q):
+        yield dict(case, wrapper=c, query=["q", "L"])
     # drop a base clause
     for i in range(len(base)):
         yield dict(case, base=base[:i] + base[i + 1:])
@@ -447,6 +479,16 @@ def candidates(case):
     for old, new, ar in (("g", "f", 1), ("k", "h", 1)):
         if (old, ar) in preds:
             yield _map_case(case, lambda t: _rename_functor(t, old, new, ar))
+    # project r/2 on one argument (r(A,B) -> f(A) / f(B) / g(A) / g(B)) when that unary predicate is unused
+    if ("r", 2) in preds:
+        for newp in ("f", "g"):
+            if (newp, 1) not in preds:
+                for pos in (1, 2):
+                    yield _map_case(case, lambda t, newp=newp, pos=pos: _project(t, newp, pos))
+    # canonical predicate names: swap f and g
+    sw = _map_case(case, lambda t: _swap_functors(t, "f", "g", 1))
+    if G.program_text(sw["base"] + sw["wrapper"], sw["query"]) < G.program_text(base + wcl, q):
+        yield sw
     # all probabilities to 0.5
     for i, cl in enumerate(base):
         if len(cl["heads"]) == 1 and cl["heads"][0][0] not in (None, "0.5"):
@@ -474,6 +516,50 @@ def candidates(case):
     sw = _map_case(case, lambda t: _rename_const(t, {"a": "b", "b": "a"}))
     if G.program_text(sw["base"] + sw["wrapper"], sw["query"]) < G.program_text(base + wcl, q):
         yield sw
+
+
+def _collectors(t, acc):
+    if S.is_compound(t):
+        if t[0] in ("findall", "all") and len(t) == 4:
+            acc.append(t)
+        for a in t[1:]:
+            _collectors(a, acc)
+    return acc
+
+
+def _plain_wrapper(wcl, query=None):
+    """q(L) :- findall(T, G, L).  built from each collector of the wrapper (if the wrapper is not already that)"""
+    for cl in wcl:
+        for col in (_collectors(cl["body"], []) if cl["body"] is not None else []):
+            new = [{"heads": [[None, ["q", "L"]]], "body": [col[0], col[1], col[2], "L"]}]
+            differs = new != wcl or (query is not None and S.freeze(query) != ("q", "L"))
+            if differs and "L" not in S.term_vars(col[1]) + S.term_vars(col[2]):
+                yield new
+
+
+def prune_unreachable(case):
+    """drop base clauses that the wrapper no longer reaches (after unfolding / renaming / simplifying)"""
+    base, wcl = case["base"], case["wrapper"]
+    need = set()
+    for cl in wcl:
+        if cl["body"] is not None:
+            need |= G.called(cl["body"])
+    reach, todo = set(), list(need)
+    while todo:
+        p = todo.pop()
+        if p in reach:
+            continue
+        reach.add(p)
+        for cl in base:
+            if p in G.head_preds([cl]) and cl["body"] is not None:
+                todo.extend(G.called(cl["body"]))
+    kept = [cl for cl in base if G.head_preds([cl]) <= reach]
+    return case if len(kept) == len(base) else dict(case, base=kept)
+
+
+def candidates(case):
+    for c in _raw_candidates(case):
+        yield prune_unreachable(c)
 
 
 def well_formed(case):
@@ -560,8 +646,9 @@ class C19(Prop):
         "programs whose reference answer is non-ground (template variable not bound by the goal) are unjudged",
         "clause heads of one predicate are all ground or all non-ground, so the clause-index order defect owned by C13 "
         "cannot influence result order",
-        "deterministic programs (no probabilistic choice) that use findall/3 only are owned by C13 and not run here; "
-        "deterministic programs with all/3 are judged here",
+        "an 'order' violation whose minimised program has no probabilistic choice and uses findall/3 only is the "
+        "deterministic findall order defect owned by C13 (counter owned_by_C13_deterministic_findall:order), not "
+        "reported here; every other symptom of a deterministic program is reported",
         "timeouts (8 s CPU of the worker / 120 s wall) are unjudged; programs whose reference result list is longer than 9 elements are not run",
     ]
     budget = {"quick": 240, "thorough": 2400}
@@ -645,8 +732,9 @@ class C19(Prop):
         sym = r["sym"]
         case = make_case(base, wc, q)
         small = minimise(case, sym)
-        if owned_by_c13(BaseRef(small["base"]), small["wrapper"]):
-            # the violation survives with every probabilistic choice removed: a deterministic findall/3 defect
+        if sym == "order" and owned_by_c13(BaseRef(small["base"]), small["wrapper"]):
+            # the order violation survives with every probabilistic choice removed: the deterministic findall/3
+            # order defect that C13 owns (DESIGN 2.8); any other symptom is reported here
             acc.counters["owned_by_C13_deterministic_findall:" + sym] += 1
             acc.notes.setdefault("owned_by_C13_example", small["program"])
             return
